@@ -51,14 +51,14 @@ func invariantBreach(tree interface{}) string {
 			mn, mx := defMin, defMax
 			okNum := true
 			if n, has := d["min"]; has {
-				if jn, isNum := n.(json.Number); isNum {
+				if jn, isNum := n.(json.Number); isNum && plainInt(jn) {
 					mn, _ = strconv.ParseInt(string(jn), 10, 64)
 				} else {
 					okNum = false
 				}
 			}
 			if n, has := d["max"]; has {
-				if jn, isNum := n.(json.Number); isNum {
+				if jn, isNum := n.(json.Number); isNum && plainInt(jn) {
 					mx, _ = strconv.ParseInt(string(jn), 10, 64)
 				} else {
 					okNum = false
